@@ -331,3 +331,34 @@ def rule_fwd(ctx, M):
                    and s.callee.name not in ("deref", "deref_mut")]
         ctx.check(not foreign, "C01.FWD", b.def_, "no foreign call while the readiness guard is held in wake",
                   site=foreign[0].where if foreign else None, sample={"calls": [str(s.key) for s in bi.sites]})
+
+
+def live_premises(ctx, M, units, rule_id, with_globals=True):
+    """The wake-protocol clauses a sub-waker (or pass-through) combinator's own result property rests
+    on, evaluated for `units` and recorded under `rule_id` (a dependent property re-checks its
+    premises itself instead of only citing C01)."""
+    std = M.config == "std"
+    with ctx.renamed({"C01.*": rule_id}):
+        for u in units:
+            if u.family in PASS_FAMILIES:
+                rule_route_pass(ctx, u)
+                continue
+            rule_reg(ctx, u)
+            rule_route_sub(ctx, u)
+            if std:
+                rule_lock(ctx, u)
+            rule_token(ctx, u)
+            rule_rearm(ctx, u)
+        if with_globals:
+            if any(u.container == "group" for u in units):
+                rule_insert_arm(ctx, M)
+            if any(u.family not in PASS_FAMILIES for u in units):
+                if std:
+                    rule_fwd(ctx, M)
+                    prims.check_bits(ctx, M, "C01.BITS")
+                else:
+                    prims.check_nostd(ctx, M, "C01.NOSTD")
+                prims.check_set_waker(ctx, M, "C01.SETWAKER")
+
+
+PASS_FAMILIES = ("race", "race_ok", "chain")
